@@ -106,12 +106,19 @@ def gen_case(rng, tier, force=None):
                 recs.sort(key=lambda r: custom_key(less, r))
         for j, r in enumerate(recs):
             r['uid'] = i * 100 + j + 1
-        inputs.append(dict(refs=refs, so=so, recs=recs, fail=-1, kind='err', rd=rng.choice([1, 1, 2])))
+        lay = 'natural' if (force.get('span') or rng.random() < 0.25) else 'block'
+        if force.get('span'):
+            for r in recs[:4]:
+                r['pad'] = rng.choice([20000, 30000, 45000])
+            recs = recs[:4] + [r for r in recs[4:]]
+        inputs.append(dict(refs=refs, so=so, recs=recs, fail=-1, kind='err', rd=rng.choice([1, 1, 2, 3, 4]),
+                           go=(rng.choice([0, 0, 1, 2, 3]) if rng.random() < 0.3 else 0), layout=lay, wc=rng.choice([1, 2, 3])))
     # faults
     if force.get('fault', rng.random() < 0.3):
         for _ in range(rng.choice([1, 1, 2])):
             inp = rng.choice(inputs)
-            inp['fail'] = rng.randint(0, len(inp['recs']))
+            # in an ordinary file only the end marker is a block boundary known to the harness
+            inp['fail'] = len(inp['recs']) if inp['layout'] == 'natural' else rng.randint(0, len(inp['recs']))
             inp['kind'] = rng.choice(['err', 'trunc'])
     # sort order disagreement / conflicting reference definitions (NewMerger must refuse)
     x = rng.random()
@@ -150,6 +157,12 @@ def gen_cases(rng, tier):
         cases.append(c)
     for _ in range(n // 16):
         cases.append(gen_case(rng, tier, dict(fault=True)))
+    # ordinary BAM files whose records span BGZF blocks, read with rd > 1
+    for _ in range(10 if tier == 'quick' else 120):
+        c = gen_case(rng, tier, dict(span=True))
+        for inp in c['inputs']:
+            inp['rd'] = rng.choice([2, 3, 4])
+        cases.append(c)
     for _ in range(24 if tier == 'quick' else 200):
         cases.append(gen_less_case(rng))
     return cases
@@ -243,6 +256,9 @@ def oracle(c, o):
         return out
     if o.get('hso') != ins[0]['so']:
         out.append((tag + ':header:so', 'merged header sort order %s' % o.get('hso')))
+    wantgo = ins[0].get('go', 0) if k == 1 else 0
+    if o.get('hgo', 0) != wantgo:
+        out.append((tag + ':header:go', 'merged header group order %s, expected %s' % (o.get('hgo'), wantgo)))
     midx = {nm: i for i, (nm, _) in enumerate(mrefs)}
     src = {}
     for i, inp in enumerate(ins):
@@ -375,7 +391,7 @@ def crec(r):
 
 def cinput(inp):
     refs = clist(inp['refs'], lambda x: '(%s, %s)' % (cstr(x[0]), cz(x[1])))
-    return '(mkInput %s %s %s %s)' % (refs, cz(inp['so']), clist(deliverable(inp), crec), cb(inp['fail'] >= 0))
+    return '(mkInput %s %s %s %s %s)' % (refs, cz(inp['so']), clist(deliverable(inp), crec), cb(inp['fail'] >= 0), cz(inp.get('go', 0)))
 
 
 END_CODE = {'eof': 0, 'fault': 1, 'trunc': 1}
@@ -397,7 +413,7 @@ def cobs(o):
         e = 3
     after = clist(o['after'], lambda a: cz(0 if a == 'eof' else 1 if a in ('fault', 'trunc') else 2 if a.startswith('panic') else 3))
     hrefs = clist(o.get('hrefs') or [], lambda x: '(%s, %s)' % (cstr(x[0]), cz(x[1])))
-    return '(ObsRun %s %s %s %s)' % (hrefs, outs, cz(e), after)
+    return '(ObsRun %s %s %s %s %s %s)' % (hrefs, cz(o.get('hso', 0)), cz(o.get('hgo', 0)), outs, cz(e), after)
 
 
 def coq_term(c, o):
@@ -469,6 +485,8 @@ def run(res, rng, tier):
             res.count('k=%d' % len(ins))
             res.count('layout=%s' % c.get('layout', 'corpus'))
             res.count('faults=%d' % sum(1 for i in ins if i['fail'] >= 0))
+            res.count('bgzf=%s' % ('span' if any(r.get('pad') for i in ins for r in i['recs']) else 'natural' if any(i.get('layout') == 'natural' for i in ins) else 'block'))
+            res.count('rd_max=%d' % max(i.get('rd', 1) for i in ins))
             res.count('empty_inputs=%d' % sum(1 for i in ins if not i['recs']))
             res.count('end=%s' % ('newerr' if o.get('newerr', 'nil') != 'nil' else o.get('end', 'crash/panic').split(':')[0]))
         else:
@@ -486,7 +504,7 @@ def run(res, rng, tier):
         c, o, t = terms[i]
         res.corr_bad.append(dict(case=c, obs=strip(o), coq_case=t,
                                  note='Model/Merger.v run on this case does not produce the observed sequence'))
-    res.rule = ('generated input sets: k=1..5 inputs, 0..6 records each (15% empty), reference lists equal / subsequences of a master list / disjoint / '
+    res.rule = ('generated input sets (BAM written per case: one record per BGZF block, or as bam.Writer lays it out with wc 1-3, or with 20-45 kB sequences so that records span BGZF blocks; readers with rd 1..4; group order set on 30% of inputs): k=1..5 inputs, 0..6 records each (15% empty), reference lists equal / subsequences of a master list / disjoint / '
                 'overlapping / permuted / absent with names whose lexical order differs from list order, mates on other references, unplaced records, '
                 'all four sort orders and five custom less functions, inputs sorted in the declared order (10% deliberately not), 30% with one or two inputs '
                 'failing at record n (injected error or truncation under the BAM reader), sort-order mismatch and conflicting reference definitions; plus direct '
@@ -513,20 +531,23 @@ def replay(res, rp):
 TRUSTED = [
     'Coq 8.16.1 kernel (coqc); vm_compute used for case evaluation only',
     'hand-written model coq/Model/Merger.v of bam/merger.go (NewMerger, Read, cat, nextBySortOrder, reassignReference, bySortOrderAndID.Less), sam.LessByName/LessByCoordinate and container/heap (Init/Push/Pop/up/down transcribed); validated on every run by evaluating it inside Coq on the cases the implementation ran and comparing the full output sequence',
-    'bam.Reader is modelled as a stream: records, then io.EOF for ever or an error for ever; (nil, err) on every failure (bam/reader.go returns no record with an error)',
-    'sam.MergeHeaders is abstracted to the reference renumbering it returns (first-appearance union by name; C07 owns MergeHeaders); the renumbering the model computes is compared with the merged header and the reference ids observed',
+    'bam.Reader is modelled as a stream: records, then io.EOF for ever or an error for ever; (nil, err) on every failure (bam/reader.go returns no record with an error); exercised with inputs laid out one record per BGZF block, as ordinary bam.Writer files (records sharing blocks, wc 1-3) and with records spanning BGZF blocks, read with rd = 1..4, faults injected under the reader',
+    'sam.MergeHeaders: the theorems about order, bag, stability and errors hold for every link table; merge_relinked instantiates the table with the result of MergeHeaders in the header model of C07 (coq/Model/Header.v, merge_headers_spec) — that model is C07\'s, tied to the code by C07\'s correspondence; for the C18 correspondence the model computes merged references / sort order / group order / links for references with name and length and compares them with Merger.Header() and the observed ids',
     'Go int as unbounded Z; strings as byte lists compared lexicographically',
 ]
 ASSUME = [
     'references carry name and length only in generated cases (attribute-merging paths of AddReference belong to C07)',
+    'merge_relinked assumes the records of input j refer to references of header j (bam.Reader rejects other ids) and the header invariant WInv of C07 for the source headers',
     'container/heap is represented by a hand transcription of heap.Init/Push/Pop/up/down (Model/Merger.v, GoHeap); its contract (bag, totality, heap order for comparisons between a preorder and its strict part) is proved for the transcription, not assumed; merge_sorted_any_queue states the merger\'s correctness for any queue meeting that contract',
 ]
 
 CLAIM = dict(
     text='Machine-checked proof (Coq 8.16.1) over an executable model of bam.Merger (NewMerger, Read, concatenation mode, heap-driven merge with the '
          'bySortOrderAndID comparison, reference re-linking) and of LessByName/LessByCoordinate: for all input sets, links and histories the output is a '
-         'permutation of the records the inputs deliver, sorted in the declared order when the inputs are, stable per input, re-linked (reference and mate) '
-         'to the merged header, ends with EOF exactly when every input ended cleanly and with the error otherwise, and never panics. The model is run '
+         'permutation of the records the inputs deliver, sorted in the declared order when the inputs are, stable per input, ends with EOF exactly when every '
+         'input ended cleanly and with the error otherwise, and never panics; with the link table MergeHeaders returns (C07\'s header model) every returned '
+         'record\'s reference and mate reference is one the merged header owns and lists at its id, with the name and length it had in its source; NewMerger\'s '
+         'header handling (sort order agreement, SortOrder/GroupOrder of the merged header, mode per declared order) is part of the model. The model is run '
          'against the implementation on generated input sets (empty and failing inputs, permuted reference lists, all sort orders) inside coqc on every run; '
          'an independent sort-and-compare oracle judges the implementation.',
     note='Trusted: Coq kernel; the hand-written model (tied by exact output-sequence correspondence on every run); bam.Reader as a stream that returns (nil, err) on failure; '
